@@ -1360,7 +1360,7 @@ matrix_buffer_getbuf(matrix *self, Py_buffer *view, int flags)
     view->format = NULL;
 
   if (flags & PyBUF_STRIDES) {
-    view->len = MAT_LGT(self)*E_SIZE[self->id];
+    view->len = (Py_ssize_t)MAT_LGT(self)*E_SIZE[self->id];
     view->itemsize = E_SIZE[self->id];
     self->strides[0] = view->itemsize;
     self->strides[1] = self->nrows*view->itemsize;
